@@ -32,16 +32,24 @@ namespace Vec
 
 def zeroSlot (objsize : Nat) : Bytes := List.replicate objsize 0
 
-/-- qvector(max, objsize, options); `none` = NULL with EINVAL -/
+/-- qvector(): the branch of the constructor's policy chain the option word takes — the first
+    test `options & BIT` that fires in source order (Generated.ctorChain), else the final `else`:
+    (policy bit ORed into `vector->options`, whether that branch prepares `initnum`) -/
+def ctorBranch (word : Nat) : Nat × Bool :=
+  match Generated.ctorChain.find? (fun r => word &&& r.1 ≠ 0) with
+  | some r => r.2
+  | none => Generated.ctorElse
+
+/-- qvector(max, objsize, options); `none` = NULL with EINVAL. `vector->options` starts from 0 (or
+    from the caller's word, Generated.ctorStoresRaw) and gets the bit of the branch taken; `initnum`
+    stays 0 (calloc) unless the branch sets it to `max == 0 ? 1 : max`. -/
 def new (max objsize options : Nat) : Option Vec :=
   if objsize = 0 then none
   else
-    let dbl := options &&& QVECTOR_RESIZE_DOUBLE ≠ 0
-    let lin := options &&& QVECTOR_RESIZE_LINEAR ≠ 0
+    let br := ctorBranch options
     some { slots := List.replicate max (zeroSlot objsize), num := 0, max := max, objsize := objsize,
-           options := if dbl then QVECTOR_RESIZE_DOUBLE else if lin then QVECTOR_RESIZE_LINEAR
-                      else QVECTOR_RESIZE_EXACT,
-           initnum := if ¬ dbl ∧ lin then (if max = 0 then 1 else max) else 0 }
+           options := (if Generated.ctorStoresRaw then options else 0) ||| br.1,
+           initnum := if br.2 then (if max = 0 then 1 else max) else 0 }
 
 def rdSlot (s : List Bytes) (i : Nat) : Except Fault Bytes :=
   match s[i]? with
@@ -60,11 +68,15 @@ def resize (v : Vec) (newmax : Nat) : Bool × Vec :=
     (true, { v with slots := (v.slots ++ List.replicate newmax (zeroSlot v.objsize)).take newmax,
                     max := newmax, num := if v.num > newmax then newmax else v.num })
 
+/-- the capacity formula qvector_addat's growth block selects: the first test
+    `vector->options & BIT` that fires in source order (Generated.growChain), else the default -/
+def growKind (v : Vec) : GrowKind :=
+  match Generated.growChain.find? (fun r => v.options &&& r.1 ≠ 0) with
+  | some r => r.2
+  | none => Generated.growDefault
+
 /-- the capacity qvector_addat asks for when the vector is full -/
-def grownMax (v : Vec) : Nat :=
-  if v.options &&& QVECTOR_RESIZE_DOUBLE ≠ 0 then (v.max + 1) * 2
-  else if v.options &&& QVECTOR_RESIZE_LINEAR ≠ 0 then v.max + v.initnum
-  else v.max + 1
+def grownMax (v : Vec) : Nat := growBy v.growKind v.max v.initnum
 
 /-- `for (i = num; i > index; i--) memcpy(slot i, slot i-1, objsize)` (adjacent slots never overlap) -/
 def shiftUp (index : Nat) : Nat → List Bytes → Except Fault (List Bytes)
@@ -208,6 +220,12 @@ def getNext (v : Vec) (c : Cursor) : Except Fault (DataRes × Cursor) :=
   else do
     let e ← rdSlot v.slots c.index.toNat
     pure ((some e, .ok), { index := c.index + 1 })
+
+/-- qvector_getnext(vector, NULL, newmem): `if (obj == NULL) return false;` — errno is not touched -/
+def getNextNull : BoolRes := (false, .ok)
+
+/-- qvector_debug(vector, NULL): false, errno = EIO -/
+def debugNull : BoolRes := (false, .EIO)
 
 def walkFrom (v : Vec) : Nat → Cursor → Except Fault (List Bytes)
   | 0, _ => .error .outOfFuel
